@@ -15,4 +15,14 @@ CHECKS = {
         "technique": MBT,
     },
 }
+CHECKS["C18"] = {
+    "text": "The line splitter and the cell's independently coded height rule are transcribed into TLA+ over token strings; TLC checks exhaustively (all token strings up to a bound over {line feed, narrow, wide, empty chunk}) that the two computations agree, and every such string (literally, and with each chunk consistently replaced by rich Unicode chunks) plus seeded random longer strings is measured by the real library; TLC validates every relation of the statement (split loses only line breaks and at most one trailing newline, longest = max per line, runes <= bytes, cells <= 2 runes, cell height = line count, cell width = widest line) on the logged numbers.",
+    "note": "Trusted: the driver's tokenisation, TLC. Display width itself is the library's measure by the statement, so the Unicode width tables are not modelled. Strings beyond the bound are sampled.",
+    "technique": MBT,
+}
+CHECKS["C01"] = {
+    "text": "The text-form dispatch (string, rune, String > GoString > Error > %v, nested cell, nil), the empty flag and the snapshot/Update state machine are a TLA+ model; TLC enumerates every item kind and all 32 capability combinations with distinct payloads, each followed by mutation and Update in every order, checks the precedence implications and that mutation alone never changes the text, and every transition is executed on the real library (one concrete Go type per capability set) literally and under rich-string substitution, plus seeded random item sequences; TLC validates text, emptiness and item identity of every cell.",
+    "note": "Trusted: the generated Go item types (items_gen.go), the static capability table for pool values, fmt's %v as oracle of the last arm. The space of dynamic types is infinite; the dispatch depends only on (kind, capability set), which is enumerated completely.",
+    "technique": MBT,
+}
 NOT_APPLICABLE = {}
